@@ -267,7 +267,7 @@ def rule_c13_validity(prog: Program, col: Collector) -> None:
             ok = _elem_of_valid(v, G)
             if not ok and v[0] == "const":
                 # constant fallback only on the branch where there is no valid action at all
-                guarded = any(f[0] == "if" and f[2] is True and f[1][0] == "un" and f[1][1] == "not" and _seq_of_valid(f[1][2], G) for f in r.ctx)
+                guarded = any(f[0] == "if" and f[2] is False and _seq_of_valid(f[1], G) for f in r.ctx)        # `if not valid:` = the valid list is falsy
                 if guarded:
                     col.ok(ref.where(r.node), ref.short, "constant fallback only when there is no valid action (vacuous)")
                     continue
